@@ -342,7 +342,11 @@ func (ws *Workspace) drawTargeting(t *tape.Tape) {
 			// --path: one or two directories or files
 			m.TargetPaths = []string{ws.pickPath(t, m)}
 			if t.Draw("ws.twopaths", 2) == 1 {
-				if p2 := ws.pickPath(t, m); p2 != m.TargetPaths[0] {
+				if a, b := prefixSiblings(m.Dirs); a != "" && t.Draw("ws.prefixpair", 2) == 1 {
+					// two directories of which one is a STRING prefix of the other without containing it
+					// (v1 and v1beta1): both are targets, neither covers the other
+					m.TargetPaths = []string{a, b}
+				} else if p2 := ws.pickPath(t, m); p2 != m.TargetPaths[0] {
 					m.TargetPaths = append(m.TargetPaths, p2)
 				}
 			}
@@ -371,6 +375,20 @@ func (ws *Workspace) pickPath(t *tape.Tape, m *Module) string {
 		return m.Dirs[t.Draw("ws.pathdir", len(m.Dirs))]
 	}
 	return m.Files[t.Draw("ws.pathfile", len(m.Files))].Path
+}
+
+// prefixSiblings returns two directories a, b with b string-extending a but not lying below it.
+func prefixSiblings(dirs []string) (string, string) {
+	sorted := append([]string(nil), dirs...)
+	sort.Strings(sorted)
+	for _, a := range sorted {
+		for _, b := range sorted {
+			if a != b && strings.HasPrefix(b, a) && !under(a, b) {
+				return a, b
+			}
+		}
+	}
+	return "", ""
 }
 
 func under(prefix, p string) bool {
